@@ -11,7 +11,7 @@ import ast
 
 from ..cfg import known_falsy
 from ..model import self_attr, unparse, walk_body_shallow, walk_shallow
-from .util import (call_name, call_recv, calls_in, kwarg, names_in, need, node_assign_value, node_writes_attr, norm,
+from .util import (at, chains_in, value_origins, call_name, call_recv, calls_in, kwarg, names_in, need, node_assign_value, node_writes_attr, norm,
                    one, registrations, where)
 
 TECHNIQUE = "single-flight typestate via must-hold guard facts, CFG cycle check for suspension, offset def-use, wrapper-offset data dependence"
@@ -211,6 +211,37 @@ def run(ctx):
     allowed_w = {"__init__", "start", hfr.name} | handlers
     r.check(set(wr) <= allowed_w, "%s#writers(_fetch_offset)" % CONS,
             "_fetch_offset written in %s" % sorted(set(wr) - allowed_w), facts=wr)
+    # what each writer may store in the fetch position (every value that can reach the store, through locals)
+    FORMS = {
+        "start": [r"^<param:1>$"],
+        hfr.name: [r"^\w+\.offset \+ 1$", r"^1 \+ \w+\.offset$"],
+        "_handle_offset_response": [r"^\w+\.offsets\[0\]$", r"^\w+\.offset \+ 1$", r"^1 \+ \w+\.offset$", r"^OFFSET_LATEST$", r"^OFFSET_EARLIEST$"],
+        "_handle_fetch_error": [r"^self\.auto_offset_reset$"],
+        "_handle_offset_error": [r"^self\.auto_offset_reset$"],
+        "__init__": [r"^None$"],
+    }
+    import re as _re
+    done_w = set()
+    for f_, kind_, node_ in prog.attr_accesses(ci, "_fetch_offset", False):
+        if kind_ != "write" or f_.cls is not ci or f_.name not in FORMS or f_.qname in done_w:
+            continue
+        done_w.add(f_.qname)
+        cfw = ctx.cfg(f_)
+        for wn in [n for n in cfw.nodes if node_assign_value(n, "_fetch_offset") is not None]:
+            og = value_origins(cfw, wn.id, at(ctx, f_, wn.id, node_assign_value(wn, "_fetch_offset")), params=f_.params)
+            texts = []
+            for n_, e in (og or [(None, None)]):
+                if e is None:
+                    texts.append("<untraceable>")
+                elif n_ == cfw.entry.id and isinstance(e, ast.Name) and e.id in f_.params:
+                    texts.append("<param:%d>" % f_.params.index(e.id))
+                else:
+                    texts.append(norm(e))
+            bad_forms = [t for t in texts if not any(_re.match(p_, t) for p_ in FORMS[f_.name])]
+            r.check(not bad_forms, "%s#position-written(%s)" % (f_.qname, "|".join(sorted(set(texts)))[:60]),
+                    "the fetch position is set from %s; %s may only store %s" % (bad_forms, f_.name, FORMS[f_.name]), where(f_, wn.stmt),
+                    "the consumer resumes at a position the caller / the broker did not give: committed messages redelivered, or the "
+                    "reset policy not applied")
     appends = []
     for n in cf.nodes:
         for x in n.calls():
@@ -234,6 +265,24 @@ def run(ctx):
             "append of a message is not dominated by the false outcome of `%s.offset < self._fetch_offset`" % M,
             where(hfr, sm), "`<=` drops the first requested message; no test redelivers wrapper-internal messages",
             facts=sorted(t for t, p in facts[an.id] if "_fetch_offset" in t))
+    # the skip test is the ONLY thing that decides whether a decoded message is delivered: inside the message loop the
+    # append depends on no other condition
+    mloops = [n for n in cf.nodes if n.kind == "for" and isinstance(n.stmt.target, ast.Name) and n.stmt.target.id == M]
+    if mloops:
+        mbody = cf.reach([mloops[0].id], avoid=[t for t, lab in cf.succ[mloops[0].id] if lab == ("iter", False)])
+        from ..cfg import cond_atoms
+        extra_conds = []
+        for t, lab in cf.control_deps_transitive(an.id, within=mbody):
+            if t.kind != "test":
+                continue
+            is_skip = any(tx == "%s.offset < self._fetch_offset" % M for tx, pol in cond_atoms(t.stmt.test, True)) and chains_in(t.stmt.test) <= {
+                M, M + ".offset", "self", "self._fetch_offset"}
+            if not is_skip:
+                extra_conds.append(norm(t.stmt.test))
+        r.check(not extra_conds, "%s#only-skip-condition" % hfr.qname,
+                "delivery of a decoded message also depends on %s; only `offset < fetch position` may drop a message" % extra_conds, where(hfr, sm),
+                "restart at an earlier offset / reset to earliest after truncation: messages at or below some remembered mark are "
+                "silently omitted")
     advs = [n for n in cf.nodes if node_assign_value(n, "_fetch_offset") is not None and n.id in cf.reach([an.id])
             and an.id in cf.reach([n.id])]
     adv_ok = False
@@ -406,8 +455,8 @@ MUTANTS = [
     {"id": "parked-dropped", "file": "consumer.py",
      "old": "            self._msg_block_d.addCallback(lambda _: self._handle_fetch_response(responses))\n            return",
      "new": "            return", "expect": "C02.R4"},
-    {"id": "no-yield", "file": "consumer.py", "old": "                yield d\n                if self._start_d is None or self._start_d.called:",
-     "new": "                if self._start_d is None or self._start_d.called:", "expect": "C02.R2"},
+    {"id": "no-yield", "file": "consumer.py", "old": "                yield d\n                if self._stopping or self._start_d is None or self._start_d.called:",
+     "new": "                if self._stopping or self._start_d is None or self._start_d.called:", "expect": "C02.R2"},
     {"id": "fetch-unguarded", "file": "consumer.py",
      "old": "        if self._request_d:\n            log.debug(\"_do_fetch: Outstanding request: %r\", self._request_d)\n            return\n",
      "new": "", "expect": "C02.R5"},
